@@ -297,7 +297,7 @@ func (es *endpointSharding) updateStateLocked() {
 		Picker: &pickerWithChildStates{
 			pickers:     pickers,
 			childStates: childStates,
-			next:        uint32(randIntN(len(pickers))),
+			next:        uint64(randIntN(len(pickers))),
 		},
 	})
 }
@@ -308,12 +308,12 @@ func (es *endpointSharding) updateStateLocked() {
 type pickerWithChildStates struct {
 	pickers     []balancer.Picker
 	childStates []ChildState
-	next        uint32
+	next        uint64
 }
 
 func (p *pickerWithChildStates) Pick(info balancer.PickInfo) (balancer.PickResult, error) {
-	nextIndex := atomic.AddUint32(&p.next, 1)
-	picker := p.pickers[nextIndex%uint32(len(p.pickers))]
+	nextIndex := atomic.AddUint64(&p.next, 1)
+	picker := p.pickers[nextIndex%uint64(len(p.pickers))]
 	return picker.Pick(info)
 }
 
